@@ -1,5 +1,7 @@
 import GlyProofs.Smiles.Certify
 import GlyProofs.Smiles.TreeTheorem
+import GlyProofs.Mono.NumberingP
+import GlyProofs.Mono.NumberingF
 import GlyProofs.Front.WalkDen
 /-
   C01 — Glycosidic assembly yields exactly the molecule the linkages describe. (Property theorems only.)
@@ -105,6 +107,18 @@ theorem C01_tree_example :
     denoting `C` with its first atom (the anomeric O) replaced by the parent's N – same bonds, same atom numbering. -/
 theorem C01_nlink_block (block : List Tok) (C : Mol) (hb : BlockOK block C) : BlockOK (blockOf true block) (nCap C) :=
   nblock block C hb
+
+open Gly.EnumC in
+/-- **The carbon numbering of the library** (`enumerate_carbon`, the numbering every position lookup – `find_oxygen`, `mark`,
+    `root_atom_id` – relies on): for every anomer-less row of the pyranose and furanose tables (the a / b rows have the same
+    atoms and bonds) the Model of `enumerate_carbon` – tied to enum_c.py by correspondence on every residue the checks convert –
+    numbers the main chain exactly as the chemistry-level rule does: C1 is the anomeric carbon (ring carbon bonded to the ring
+    oxygen and to a second oxygen) or, in a 2-ketose, the carbon hanging on it; the numbering runs along the ring away from the
+    ring oxygen and on into the exocyclic tail. Exceptions, listed: the branched-chain sugars Api, Erwiniose, Yer, whose "main
+    chain" is a convention. Kernel evaluation over the complete regenerated tables. -/
+theorem C01_numbering_table :
+    numberingOk Gen.pyranoseTable ["API", "ERWINIOSE", "YER"] = true ∧ numberingOk Gen.furanoseTable ["API"] = true :=
+  ⟨numbering_pyranose, numbering_furanose⟩
 
 /-- The tree the assembly consumes is the written one (C03). -/
 theorem C01_tree_is_written (w : WalkCfg) (s : Start) : walkStart w s = denStart w s := walkStart_eq_denStart w s
